@@ -46,6 +46,10 @@ func (i *Ignore) load(rootGoitPath string) error {
 	scanner := bufio.NewScanner(f)
 	for scanner.Scan() {
 		text := scanner.Text()
+		// a blank line separates entries and is not an entry itself (as a pattern it would match every path)
+		if text == "" {
+			continue
+		}
 		var replacedText string
 		// everything except '*' is literal text, so it must not be read as regexp syntax
 		quotedText := strings.ReplaceAll(regexp.QuoteMeta(text), `\*`, ".*")
